@@ -118,6 +118,7 @@ def default_style():
         flip=0.5,              # comparisons printed with swapped operands (<= a b) -> (>= b a)
         imply_or=0.3,          # (imply a b) printed as (or (not a) b)
         merge_q=0.7,           # nested quantifiers of one kind merged into one with several variables
+        extra_var=0.3,         # a quantifier gets one more, unused, variable
         bare=0.0,              # 0-ary function heads without parentheses
         neg_init=0.0,          # (not (p a)) for false atoms in :init
         bare_in_eq=False,      # bare 0-ary heads also as operands of = (the third-party grammar reads (= g 3) as term equality)
@@ -356,6 +357,11 @@ class Printer:
                     {v["name"] for v in body["vars"]} & {v["name"] for v in vs}):
                 vs += body["vars"]
                 body = body["args"][0]
+            if r.random() < s["extra_var"]:
+                # one more (unused) variable in the same quantifier; every declared type has an object
+                t = r.choice(self.P["types"])["name"]
+                vs.append({"name": "u%d" % len(vs), "type": {"k": "user", "name": t}})
+                self.f("quantifier:unused-extra-variable")
             if len(vs) > 1:
                 self.f("quantifier:several-variables")
             self.f("op:" + op)
@@ -1105,7 +1111,7 @@ def run(ctx):
     phases = {}
     q = ctx.quick
     counts = [("cls", 22), ("num", 26), ("case", 8), ("border", 10), ("known", 8)] if q else \
-             [("cls", 500), ("num", 600), ("case", 120), ("border", 200), ("known", 160)]
+             [("cls", 300), ("num", 420), ("case", 80), ("border", 100), ("known", 80)]
     D = 3 if q else 4
     texts = make_texts(ctx.rng, counts)
     work = ctx.sub("texts")
@@ -1169,6 +1175,12 @@ def run(ctx):
     for cid in todo:
         for f in meta[cid]["features"] + sorted({x for fs in meta[cid]["action_features"].values() for x in fs}):
             forms[f] = forms.get(f, 0) + 1
+    # vacuity guard (machinery, not a verdict): the main slices are printed inside the probed common fragment
+    main = [r for r in recs if meta[r["cid"]]["slice"] in ("cls", "num")]
+    both = [r for r in main if r["reads"]["up"]["rexc"] == "none" and r["reads"]["ai"]["rexc"] == "none"]
+    if len(both) * 2 < len(main):
+        raise MachineryError("vacuous run: only %d of %d texts of the main slices are accepted by both readers: %r"
+                             % (len(both), len(main), dict(sorted(why.items(), key=lambda kv: -kv[1])[:5])))
     ctx.cov["evaluations"] = len(recs)
     ctx.cov["traces_validated_against_impl"] = nb
     ctx.cov["distinct_nontrivial"] = nb
